@@ -68,20 +68,22 @@ def make_device(spec: dict):
     base.update({k: v for k, v in spec.items() if k in BASE})
     over = spec.get("over", {})
 
-    def P(fam):
+    def P(fam, local=None):
         p = dict(base)
         p.update(over.get(fam, {}))
+        if local is not None:  # per-channel overrides, e.g. over={"rydberg_local": {...}}
+            p.update(over.get(f"{fam}_{'local' if local else 'global'}", {}))
         return p
 
     eom = spec.get("eom")
-    ryd_kw = _chan_kwargs(P("rydberg"), False)
-    if eom is not None and P("rydberg")["bw"]:
+    ryd_kw = _chan_kwargs(P("rydberg", False), False)
+    if eom is not None and P("rydberg", False)["bw"]:
         ryd_kw["eom_config"] = make_eom(eom)
     chans = (
-        Rydberg.Global(P("rydberg")["max_det"], P("rydberg")["max_amp"], **ryd_kw),
-        Rydberg.Local(P("rydberg")["max_det"], P("rydberg")["max_amp"], **_chan_kwargs(P("rydberg"), True)),
-        Raman.Global(P("raman")["max_det"], P("raman")["max_amp"], **_chan_kwargs(P("raman"), False)),
-        Raman.Local(P("raman")["max_det"], P("raman")["max_amp"], **_chan_kwargs(P("raman"), True)),
+        Rydberg.Global(P("rydberg", False)["max_det"], P("rydberg", False)["max_amp"], **ryd_kw),
+        Rydberg.Local(P("rydberg", True)["max_det"], P("rydberg", True)["max_amp"], **_chan_kwargs(P("rydberg", True), True)),
+        Raman.Global(P("raman", False)["max_det"], P("raman", False)["max_amp"], **_chan_kwargs(P("raman", False), False)),
+        Raman.Local(P("raman", True)["max_det"], P("raman", True)["max_amp"], **_chan_kwargs(P("raman", True), True)),
         Microwave.Global(P("mw")["max_det"], P("mw")["max_amp"], **_chan_kwargs(P("mw"), False)),
     )
     pd = P("dmm")
@@ -158,7 +160,16 @@ def make_pulse(spec):
         return Pulse.ConstantAmplitude(spec[2], make_wf(["R", spec[1], spec[3], spec[4]]), spec[5], post_phase_shift=spec[6] if len(spec) > 6 else 0.0)
     if k == "P":
         return Pulse(make_wf(spec[1]), make_wf(spec[2]), spec[3], post_phase_shift=spec[4] if len(spec) > 4 else 0.0)
+    if k == "A":  # ["A", amp_wf_spec, phase_wf_spec, post]  arbitrary phase waveform
+        return Pulse.ArbitraryPhase(make_wf(spec[1]), make_wf(spec[2]), post_phase_shift=spec[3] if len(spec) > 3 else 0.0)
     raise ValueError(f"unknown pulse spec {spec}")
+
+
+def programmed_post(spec) -> float:
+    """The post-phase-shift written in a pulse spec (what the user programmed, not what the built Pulse reports)."""
+    k = spec[0]
+    i = {"c": 5, "b": 5, "r": 6, "P": 4, "A": 3}[k]
+    return float(spec[i]) if len(spec) > i else 0.0
 
 
 class World:
@@ -253,6 +264,7 @@ class World:
         p = dict(BASE)
         p.update({k: v for k, v in self.spec.items() if k in BASE})
         p.update(self.spec.get("over", {}).get(fam, {}))
+        p.update(self.spec.get("over", {}).get(ch_id, {}))
         p["local"] = ch_id.endswith("_local")
         p["rise"] = int(0.48 / p["bw"] * 1e3) if p["bw"] else 0
         p["pjt_eff"] = p["pjt"] if p["pjt"] is not None else 2 * p["rise"]
